@@ -2149,6 +2149,109 @@ def gen_linkto_programs(r, n):
     return progs
 
 
+def gen_linked_removal_programs():
+    """What a removal does to a LINKED entry (the content path is a symlink to the caller's file) and to an inode shared
+    with an extraction: `remove_hash`, `remove_fully`, `remove` take away the cache's own names - the link, the record -
+    and never touch what the link leads to; an extracted hard link keeps its bytes and its permission bits."""
+    progs = []
+    d = b"the caller's own file, linked into the cache"
+    st = sri_tok("sha256", d)
+    for fl in "sa":
+        for how in ("remove_hash", "remove_fully", "remove", "remove_hash_twice"):
+            key = b"linked-" + how.encode()
+            ops = [f"put tgt/keep.bin {hx(d)}", f"link_to {fl} c0 {hx(key)} abs:tgt/keep.bin", f"read {fl} c0 {hx(key)}"]
+            if how.startswith("remove_hash"):
+                ops.append(f"remove_hash {fl} c0 {st}")
+                if how.endswith("twice"):
+                    ops.append(f"remove_hash {'a' if fl == 's' else 's'} c0 {st}")
+            else:
+                ops.append(f"{how} {fl} c0 {hx(key)}")
+            chk = len(ops)
+            ops += ["cat tgt/keep.bin", "stat tgt/keep.bin", f"exists {fl} c0 {st}", f"metadata {fl} c0 {hx(key)}"]
+            progs.append(Program(f"linkrm-{how}-{fl}", ops, tags={"linkrm": chk, "how": how, "data": d, "variety": ("linkrm", how, fl)}))
+        # an extraction shares its inode with the stored copy: write-protect it, then remove the entry from the cache
+        for how in ("remove_hash", "remove_fully"):
+            key = b"shared-inode"
+            ops = [w_oneshot(fl, "sha256", key, d), f"hard_link_hash_unchecked s c0 {st} out/extracted", "chmod out/extracted 444",
+                   (f"remove_hash {fl} c0 {st}" if how == "remove_hash" else f"remove_fully {fl} c0 {hx(key)}")]
+            chk = len(ops)
+            ops += ["cat out/extracted", "mode out/extracted"]
+            progs.append(Program(f"inode-{how}-{fl}", ops, model=False,
+                                 tags={"linkrm": chk, "how": "inode-" + how, "data": d, "variety": ("inode", how, fl)}))
+    return progs
+
+
+def mon_linked_removal(rr):
+    out = []
+    t = rr.prog.tags
+    c, d = t["linkrm"], t["data"]
+    if len(rr.impl) < len(rr.prog.ops):
+        return out
+    sig = {"how": t["how"]}
+    cat = toks(rr.impl[c])
+    if cat[0] != "ok" or unhx(cat[1]) != d:
+        out.append(Failure("target_touched", c, f"after `{rr.prog.ops[c - 1][:40]}` the file outside the cache (link target / extracted hard link) "
+                           f"-> {' '.join(cat[:3])[:50]}", sig=sig))
+    if t["how"].startswith("inode-"):
+        m = toks(rr.impl[c + 1])
+        if m[:2] != ["ok", "444"]:
+            out.append(Failure("target_touched", c + 1, f"after `{rr.prog.ops[c - 1][:40]}` the permission bits of the extracted file are "
+                               f"{' '.join(m[:2])}, were 444", sig=sig))
+        return out
+    if toks(rr.impl[c + 1])[:3] != ["ok", "file", str(len(d))]:
+        out.append(Failure("target_touched", c + 1, f"the link target is no longer the regular file it was: {norm(rr.impl[c + 1])[:40]}", sig=sig))
+    if t["how"].startswith("remove_hash") and norm(rr.impl[c + 2]) != "ok false":
+        out.append(Failure("stale_or_missing", c + 2, f"after remove_hash of a linked entry `exists` answers {norm(rr.impl[c + 2])[:30]}", sig=sig))
+    if t["how"] in ("remove_fully", "remove") and norm(rr.impl[c + 3]) != "ok none":
+        out.append(Failure("stale_or_missing", c + 3, f"after {t['how']} of a linked entry the key still answers {norm(rr.impl[c + 3])[:40]}", sig=sig))
+    return out
+
+
+def gen_symlink_chain_programs():
+    """The content path is a link to a file that is itself a RELATIVE link (a `current -> real.bin` indirection, a linked
+    `libfoo.so -> libfoo.so.1`): every extraction hands out the bytes that were verified - the file at the end of the
+    chain - also when the destination directory holds a decoy of the inner link's name."""
+    progs = []
+    d, decoy = b"the file at the end of the chain", b"decoy: a file of the inner link's name next to the destination"
+    st = sri_tok("sha256", d)
+    cp = "c0/" + L.content_rel(L.sri_of("sha256", d))
+    for op in ("hard_link_hash s", "hard_link_hash_unchecked s", "hard_link s", "hard_link a", "copy_hash s", "copy_hash a", "copy s"):
+        for with_decoy in (True, False):
+            key = b"chained"
+            ops = [w_oneshot("s", "sha256", key, d), f"put tgt/real.bin {hx(d)}", "symlink tgt/current rel:real.bin",
+                   f"symlink {cp} abs:tgt/current"]
+            if with_decoy:
+                ops.append(f"put out/real.bin {hx(decoy)}")
+            byk = op.split(" ")[0] in ("hard_link", "copy")
+            ops.append(f"{op} c0 {hx(key) if byk else st} out/dest"); xi = len(ops) - 1
+            ops += ["cat out/dest", f"read s c0 {hx(key)}", "cat tgt/real.bin"]
+            progs.append(Program(f"chain-{op.replace(' ', '-')}-{int(with_decoy)}", ops,
+                                 tags={"chain": xi, "data": d, "variety": ("chain", op, with_decoy)}))
+    return progs
+
+
+def mon_symlink_chain(rr):
+    out = []
+    t = rr.prog.tags
+    xi, d = t["chain"], t["data"]
+    if len(rr.impl) < len(rr.prog.ops):
+        return out
+    sig = {"op": rr.prog.ops[xi].split(" ")[0], "mode": "chain"}
+    res = toks(rr.impl[xi])
+    if res[0] == "ok":
+        cat = toks(rr.impl[xi + 1])
+        if cat[0] != "ok" or unhx(cat[1]) != d:
+            out.append(Failure("wrong_bytes", xi, f"{sig['op']} of an entry behind a chain of links succeeded but the destination "
+                               f"-> {' '.join(cat[:2])[:40]}", sig=sig))
+    rd = toks(rr.impl[xi + 2])
+    if rd[0] != "ok" or unhx(rd[1]) != d:
+        out.append(Failure("stale_or_missing", xi + 2, "the entry behind the chain no longer reads", sig=sig))
+    src = toks(rr.impl[xi + 3])
+    if src[0] != "ok" or unhx(src[1]) != d:
+        out.append(Failure("target_touched", xi + 3, "the file at the end of the chain changed", sig=sig))
+    return out
+
+
 def gen_link_dotdot_programs():
     """Targets whose path goes THROUGH a symlinked directory and back up (`short/../file` with `short` a link to a
     directory elsewhere): the file the kernel opens - the one that is hashed - is `<where short leads>/../file`, not the
